@@ -136,6 +136,18 @@ def _items():
         'pub static mut PT_PARSE_OK: bool = true;\npub static mut PT_PARSE_VAL: Point = Point { x: 0, y: 0 };\npub static mut PT_PARSE_ERR: MyErr = MyErr::Bad;\n'
         'pub static mut PT_CALLS: usize = 0;\npub static mut PT_PTR: usize = 0;\npub static mut PT_LEN: usize = 0;\n'
         'impl ::core::str::FromStr for Point { type Err = MyErr; fn from_str(s: &str) -> Result<Self, MyErr> { unsafe { PT_CALLS += 1; PT_PTR = s.as_ptr() as usize; PT_LEN = s.len(); if PT_PARSE_OK { Ok(PT_PARSE_VAL) } else { Err(PT_PARSE_ERR) } } } }\n')
+    # inner type whose Display records the formatter it is handed (C13: Display transparency)
+    add('Probe',
+        '#[derive(Debug, Clone, Copy, PartialEq)]\npub struct Probe(pub u8);\n'
+        'pub static mut PROBE_LOG: [u64; 8] = [0; 8];\n'
+        'impl ::core::fmt::Display for Probe { fn fmt(&self, f: &mut ::core::fmt::Formatter<\'_>) -> ::core::fmt::Result { unsafe { PROBE_LOG[0] += 1; '
+        'PROBE_LOG[1] = match f.width() { Some(w) => w as u64 + 1, None => 0 }; PROBE_LOG[2] = match f.precision() { Some(w) => w as u64 + 1, None => 0 }; '
+        'PROBE_LOG[3] = (f.sign_plus() as u64) | ((f.sign_minus() as u64) << 1) | ((f.alternate() as u64) << 2) | ((f.sign_aware_zero_pad() as u64) << 3); '
+        'PROBE_LOG[4] = match f.align() { None => 0, Some(::core::fmt::Alignment::Left) => 1, Some(::core::fmt::Alignment::Right) => 2, Some(::core::fmt::Alignment::Center) => 3 }; '
+        'PROBE_LOG[5] = f.fill() as u64; PROBE_LOG[6] = self.0 as u64; } f.write_str("P") } }\n'
+        'pub struct CountWriter { pub n: usize, pub acc: u64 }\n'
+        'impl ::core::fmt::Write for CountWriter { fn write_str(&mut self, s: &str) -> ::core::fmt::Result { let b = s.as_bytes(); let mut i = 0; while i < b.len() && i < 4 { self.acc = self.acc * 257 + b[i] as u64; i += 1; } self.n += b.len(); Ok(()) } }\n',
+        '')
     add('san_point',
         'pub fn san_point(p: Point) -> Point { Point { x: p.x.clamp(0, 100), y: p.y.clamp(0, 100) } }\n',
         'pub uninterp spec fn SPEC_SAN_POINT(p: Point) -> Point;\n#[verifier::external_body]\n'
@@ -184,5 +196,5 @@ def render(names, mode):
         if n not in seen:
             seen.append(n)
     # MyErr first, Point first (types before functions)
-    seen.sort(key=lambda n: (0 if n in ('MyErr', 'Point') else (1 if n == 'PointFromStr' else 2)))
+    seen.sort(key=lambda n: (0 if n in ('MyErr', 'Point', 'Probe') else (1 if n == 'PointFromStr' else 2)))
     return ''.join(ITEMS[n][mode] for n in seen)
